@@ -15,7 +15,11 @@ RULE = ("one case = a generated model program plus a segmentation of its "
         "the pending event times of the reference (before, exactly at, "
         "between, equal to the clock; a minority before the clock or beyond "
         "the end); executed on the real simulator under the baton scheduler "
-        "(3/4 run-to-block, 1/4 seeded pre-emption). non-trivial = at least "
+        "(3/4 run-to-block, 1/4 seeded pre-emption); a quarter of the cases "
+        "instead cut the replication by stop() from the caller thread at "
+        "seeded points of the run thread (start / bounded run, sleep, stop, "
+        "...; then resumed to the end) and are judged by composition only. "
+        "non-trivial = at least "
         "two pieces were admitted before the final start AND at least 3 "
         "handlers executed; distinct = digest of (program, commands, pauses)")
 COMPONENTS = {
@@ -38,12 +42,44 @@ def init_worker():
     simrun.install()
 
 
+def gen_overlap(rng, seed, prog):
+    """Segmentation by the caller thread: bounded runs / starts that are
+    stopped by stop() from the caller at seeded points of the run thread."""
+    case = {"program": prog, "strategy": 3, "mode": "overlap"}
+    ref = devscommon.make_ref(case)
+    ref.initialize()
+    ref.run(ref.end, True)
+    times = sorted(set(t for t, _ in ref.trace if ref.start <= t <= ref.end))
+    cmds = [["initialize"]]
+    for _ in range(rng.randint(1, 4)):
+        r = rng.random()
+        if r < 0.5 or not times:
+            cmds.append(["start"])
+        else:
+            t = rng.choice(times) + rng.choice([0, 0, 0.25])
+            t = min(t, ref.end)
+            if prog["clock"] == "int":
+                t = int(t)
+            cmds.append(["run_up_to_incl", t])
+        cmds.append(["sleep", rng.choice([0.0001, 0.0003, 0.0005, 0.001, 0.002])])
+        cmds.append(["stop"])
+        cmds.append(rng.choice([["settle"], ["settle"], ["poll_stopped"]]))
+    cmds += [["settle"], ["drain", 12], ["settle"]]
+    case["commands"] = cmds
+    case["sched"] = {"kind": rng.choice(["pct", "site", "site"]), "seed": seed,
+                     "p": rng.choice([0.02, 0.005]), "q": rng.choice([0.3, 0.15]),
+                     "d": rng.choice([1, 2, 3]), "step_cost_us": rng.choice([1, 10, 100])}
+    return case
+
+
 def generate(seed, tier, idx=0):
     rng = common.rng_for(seed, "case")
     prog = program.gen_program(rng, p_cancel=rng.choice([0.0, 0.1]),
                                n_events=rng.choice([3, 4, 5, 6, 8, 10, 14, 20]))
     if prog["clock"] == "int":
         prog["rep"] = [int(x) for x in prog["rep"]]
+    if rng.random() < 0.25:
+        return gen_overlap(rng, seed, prog)
     case = {"program": prog, "strategy": 3}
     # pauses: the k-th executed handler calls stop()
     n_ev = len(prog["events"])
@@ -120,7 +156,59 @@ def uninterrupted_trace(case, r):
     return devscommon.ref_trace(ref, r), ref
 
 
+def evaluate_overlap(case, r):
+    """Composition under caller-thread stops: whatever the interleaving, the
+    concatenated pieces equal the uninterrupted run and the replication stays
+    resumable until it has ended."""
+    H = r.hist.H
+    findings = []
+    if r.aborted:
+        return [("no-quiescence", "run aborted: %s" % r.aborted)], {}
+    full, ref = uninterrupted_trace(case, r)
+    end = r.ref_time(ref.end)
+    late = [h for h in H if h[0] == "exe" and h[2] > end]
+    if late:
+        findings.append(("executed-beyond-end", "handler of event %s ran at %s, after the "
+                         "replication end %s" % (late[0][1], late[0][2], end)))
+    for h in H:
+        if h[0] == "quiet" and h[2] not in ("INITIALIZED", "STOPPED", "ENDED"):
+            findings.append(("state-after-command", "after a caller-thread stop the simulator "
+                             "settles in run_state %s (replication_state %s, clock %s): not "
+                             "resumable and not ended" % (h[2], h[3], h[4])))
+            break
+    got = devscommon.executed(H)
+    d = devscommon.describe_trace_diff(got, full)
+    if d is not None and not findings:
+        findings.append(("composition-mismatch", "pieces separated by caller-thread stop() "
+                         "differ from the uninterrupted run: " + d[1]))
+    if not findings and (r.final[0] != "ENDED" or r.final[2] != end):
+        findings.append(("final-clock", "after resuming until the end the simulator reports "
+                         "%s, the uninterrupted run ends ENDED at %s" % (r.final[:3], end)))
+    cmds = devscommon.split_history(H)
+    stops = [c for c in cmds if c["name"] == "stop" and c.get("outcome") == "ok"]
+    return findings, {"accepted_stops": len(stops), "ref": ref}
+
+
 def execute(case):
+    if case.get("mode") == "overlap":
+        r = simrun.Runner(case).run()
+        findings, info = evaluate_overlap(case, r)
+        findings = [f for f in findings if f[0] in MY_CHECKS]
+        res = {"digest": r.digest(), "clean": r.clean, "counters": {"mode:overlap": 1,
+               "piece:caller_stop_accepted": info.get("accepted_stops", 0)},
+               "final_case": devscommon.replay_form(case, r), "sums": {}, "sets": {},
+               "nontrivial": info.get("accepted_stops", 0) >= 1
+               and sum(1 for h in r.hist.H if h[0] == "exe") >= 3,
+               "case_digest": common.digest8([case["program"], case["commands"]]),
+               "sample_class": "overlap",
+               "observed": {"final": r.final if not r.aborted else None}}
+        devscommon.detsim_stats(res, case, r)
+        if findings:
+            res["status"] = "violation"
+            res["check_id"], res["message"] = findings[0]
+        else:
+            res["status"] = "ok"
+        return res
     r = simrun.Runner(case).run()
     findings, info = devscommon.evaluate_sequential(case, r)
     H = r.hist.H
@@ -150,14 +238,8 @@ def execute(case):
     cnt = {}
     res = {"digest": r.digest(), "clean": r.clean, "counters": cnt,
            "final_case": devscommon.replay_form(case, r),
-           "sums": {"sim_wall_seconds": r.det.clock - r.det.t0,
-                    "yield_points": r.det.step}, "sets": {}}
-    cnt["strategy:" + (case.get("sched") or {}).get("kind", "S0")] = 1
+           "sums": {}, "sets": {}}
     cnt["clock:" + case["program"]["clock"]] = 1
-    for k, v in r.faults.items():
-        cnt["fault:" + k] = v
-    if r.det.n_switch:
-        cnt["fault:preempt"] = r.det.n_switch
     pieces = [c for c in case["commands"] if c[0] in ("step", "run_up_to", "run_up_to_incl")]
     for c in pieces:
         cnt["piece:" + c[0]] = cnt.get("piece:" + c[0], 0) + 1
@@ -170,6 +252,7 @@ def execute(case):
     if ref is not None:
         res["sums"]["sim_model_time"] = float(ref.end - ref.start)
     res["observed"] = {"clocks_at_quiescence": [h[4] for h in H if h[0] == "quiet"][:12]}
+    devscommon.detsim_stats(res, case, r)
     if findings:
         res["status"] = "violation"
         res["check_id"], res["message"] = findings[0]
